@@ -10,8 +10,7 @@ CONSTANTS
   StoreOnLoad = TRUE
   Depth = 4
   Hist = TRUE
-CONSTRAINT Bound
-CONSTRAINT Emit
+CONSTRAINT Cons
 CHECK_DEADLOCK FALSE
 INVARIANT TypeOK
 INVARIANT LoadedOncePerEpoch
